@@ -116,12 +116,10 @@ HARNESSES = [
       fns=['yaml::encoding::Utf8Encoder::read', 'yaml::encoding::Utf8Encoder::next_char'], timeout=900, min_covers=3),
     H('U-ENC-8', 'encoding', 'utf8_encoder_read_step_big', 'bounded-size', ['C07', 'C04', 'C12', 'C02'], tier='thorough', bounds='caller buffer <= 6 B, <= 3 source characters per step, any remainder',
       fns=['yaml::encoding::Utf8Encoder::read'], timeout=1800, min_covers=3),
-    H('U-ENC-R', 'encoding', 'encoder_from_reader_utf8_passthrough', 'bounded-size', ['C07', 'C02'], tier='thorough', bounds='UTF-8-detected streams, contents symbolic, (length, bytes per read) in {(6,1),(3,2),(5,3),(4,4),(0,1)}',
-      fns=['yaml::encoding::Encoder::from_reader', 'yaml::encoding::Encoder::new', 'yaml::encoding::Encoder::read', 'yaml::encoding::ArrayBuffer::write'], timeout=1800,
-      assumes=['std::io::copy stubbed by an executable statement of its documented contract']),
-    H('U-ENC-R', 'encoding', 'encoder_from_reader_utf16le_reencoded', 'bounded-size', ['C07', 'C02'], tier='thorough', bounds='UTF-16LE two-character text (any printable ASCII pair) with / without BOM, 1 / 2 / 3 / 6 bytes per read',
-      fns=['yaml::encoding::Encoder::from_reader', 'yaml::encoding::Utf8Encoder::read', 'yaml::encoding::Utf16Decoder::next'], timeout=1800,
-      assumes=['std::io::copy stubbed by an executable statement of its documented contract']),
+    H('U-ENC-R', 'encoding', 'encoder_from_reader_contract', 'bounded-size', ['C07', 'C02', 'C05'], bounds='stream <= 6 B (contents symbolic), 1..=5 bytes per read',
+      fns=['yaml::encoding::Encoder::from_reader', 'yaml::encoding::ArrayBuffer::write', 'yaml::encoding::ArrayBuffer::unread'], timeout=900, min_covers=3,
+      assumes=['std::io::copy stubbed by an executable statement of its documented contract',
+               'Encoder::new stubbed by a probe recording the encoding and the chained reader (the decoders behind it are under contract separately)']),
     # ---- U-MP-G reader variant, U-MP-T, C18 depth wiring ----
     H('U-MP-G', 'msgpack', 'mp_gate_reader_source_error_propagates', 'complete', ['C09', 'C12'], bounds='reader input: source fails or yields any one byte',
       fns=['msgpack::input_matches', 'input::Ref::prefix'], timeout=900, min_covers=2,
